@@ -162,6 +162,11 @@ def run(full=False):
              "mc/MC_Refine3q.cfg", "mc/MC_Refine.tla", "refinement: a connect machine that forgets the direct parents does not refine HpoCore!ConnectAll"),
             ("HpoAlgo.tla", "Put(@, lcur.x, [name |-> nfact + 1, hpos |-> lcur.hpos])", "Put(@, lcur.x, [name |-> nfact + 1, hpos |-> lcur.hpos \\ {Max(lcur.hpos \\cup {0})}])",
              "mc/MC_Refine3q.cfg", "mc/MC_Refine.tla", "refinement: a binary loader that drops a direct term of the record does not refine HpoCore!LoadRecord"),
+            ("HpoGroupAlgo.tla", "a[i] = b[j] /\\ out' = Append(out, a[i]) /\\ i' = i + 1 /\\ j' = j + 1 /\\ UNCHANGED <<op, pc, a, b, reply>>",
+                                 "a[i] = b[j] /\\ out' = Append(out, a[i]) /\\ i' = i + 1 /\\ UNCHANGED <<op, pc, a, b, j, reply>>",
+             "mc/MC_GroupAlgo.cfg", "mc/MC_GroupAlgo.tla", "group merge loop: the Equal arm advances only the left cursor (UnionInv must fail)"),
+            ("HpoGroupAlgo.tla", "Inputs == IF AnyInput", "Inputs == IF AnyInput",
+             "mc/MC_GroupAlgoAny.cfg", "mc/MC_GroupAlgo.tla", "group algorithms on UNSORTED inputs (no change to the spec): Result must fail - the sortedness assumption is needed"),
             ("HpoLinkage.tla", ("MinPairs(act, d) == {p \\in Pairs(act) : \\A q \\in Pairs(act) : d[p] <= d[q]}", "/\\ \\A q \\in Pairs(active) : dist[p] <= dist[q]"),
                                ("MinPairs(act, d) == {p \\in Pairs(act) : \\A q \\in Pairs(act) : d[p] >= d[q]}", "/\\ \\A q \\in Pairs(active) : dist[p] >= dist[q]"),
              "mc/MC_Linkage_single.cfg", "mc/MC_Linkage.tla", "linkage machine: the farthest pair is merged first (Monotone must fail)"),
